@@ -30,6 +30,8 @@ structure Env where
   pp : List B → Option (List B)
   /-- the config front end: text to AST -/
   parseCfg : List B → Option (List Cfg.Node)
+  /-- the assembly front end (call type `'a'`): text to instructions -/
+  parseAsm : List B → Option (List Instr) := fun _ => none
 
 structure Inst where
   /-- the handle carries the magic tag (false after `destroy`, or for a foreign pointer) -/
@@ -117,6 +119,10 @@ def callBody (env : Env) (i : Inst) (cd ty : Nat) (text : List B) (fuel : Nat) :
     match env.parse text with
     | none => (oneError i cd, rcParse)
     | some _ => (withCall i cd, rcOk)
+  else if ty = 97 then      -- 'a': assembly text, executed like a parsed SQF text
+    match env.parseAsm text with
+    | none => (oneError i cd, rcParse)
+    | some prog => runScript (withCall i cd) prog fuel
   else (withCall i cd, rcType)
 
 /-- `sqfvm_call(instance, call_data, type, code, length)` -/
